@@ -569,3 +569,51 @@ def block_of(node):
 def stmts_after(node):
     b = block_of(node)
     return b[b.index(node) + 1:] if b else []
+
+
+def truth_table(sigs_or_paths, atoms_of, n_yields):
+    """Evaluate the guards of each path as boolean formulas over named atoms.
+    atoms_of(test) -> atom name for a leaf test (or None);  returns {valuation tuple: set of yield counts}"""
+    import itertools
+    names = []
+
+    def leaves(t):
+        if isinstance(t, ast.BoolOp):
+            for v in t.values:
+                yield from leaves(v)
+        elif isinstance(t, ast.UnaryOp) and isinstance(t.op, ast.Not):
+            yield from leaves(t.operand)
+        else:
+            yield t
+    for p in sigs_or_paths:
+        for t, pol in p.path.guards() if hasattr(p, 'path') else p.guards():
+            for lf in leaves(t):
+                a = atoms_of(lf)
+                if a is not None and a not in names:
+                    names.append(a)
+
+    def ev(t, val):
+        if isinstance(t, ast.BoolOp):
+            vs = [ev(v, val) for v in t.values]
+            if any(v is None for v in vs):
+                return None
+            return all(vs) if isinstance(t.op, ast.And) else any(vs)
+        if isinstance(t, ast.UnaryOp) and isinstance(t.op, ast.Not):
+            v = ev(t.operand, val)
+            return None if v is None else not v
+        a = atoms_of(t)
+        return val.get(a) if a is not None else None
+    out = {}
+    for bits in itertools.product([True, False], repeat=len(names)):
+        val = dict(zip(names, bits))
+        for p in sigs_or_paths:
+            path = p.path if hasattr(p, 'path') else p
+            sat = True
+            for t, pol in path.guards():
+                v = ev(t, val)
+                if v is None or v != pol:
+                    sat = False
+                    break
+            if sat:
+                out.setdefault(tuple(sorted(val.items())), set()).add(n_yields(p))
+    return names, out
